@@ -638,6 +638,10 @@ class _Parser(barectf_config_parse_common._Parser):
             dst_count = len(self._trace_type_node[dsts_prop_name])
 
             try:
+                if uuid_ft is not None and trace_type_uuid is None:
+                    raise _ConfigurationParseError('`uuid-field-type` property',
+                                                   'UUID field type feature is enabled, but trace type has no UUID (`uuid` property)')
+
                 if dst_id_ft is None and dst_count > 1:
                     raise _ConfigurationParseError(f'`{dst_id_ft_prop_name}` property',
                                                    'Data stream type ID field type feature is required because trace type has more than one data stream type')
